@@ -66,6 +66,46 @@ class Ctx:
         for u in shadow.functions_analysed:
             real.functions_analysed.add(u) if isinstance(real.functions_analysed, set) else None
 
+    def subst_fold(self, e, mapping, m, c=None):
+        """Fold `e` after replacing sub-expressions (matched by normalised text) with the constants of `mapping`."""
+        import ast as _ast
+        import math as _math
+        from .core import astutil as _A
+        from .core.report import norm as _norm
+        prog = self.prog
+
+        def rec(n):
+            if isinstance(n, _ast.expr):
+                t = _norm(n)
+                if t in mapping:
+                    return _ast.Constant(value=mapping[t])
+            if not list(_ast.iter_child_nodes(n)):
+                return _A.clone(n)
+            new = type(n)()
+            for f, v in _ast.iter_fields(n):
+                if isinstance(v, list):
+                    setattr(new, f, [rec(x) if isinstance(x, _ast.AST) else x for x in v])
+                elif isinstance(v, _ast.AST):
+                    setattr(new, f, rec(v))
+                else:
+                    setattr(new, f, v)
+            return new
+
+        class T(_ast.NodeTransformer):
+            def visit_Call(s2, n):  # noqa: N802,N805
+                s2.generic_visit(n)
+                if _norm(n.func) in ("math.ceil", "ceil") and len(n.args) == 1:
+                    v = prog.fold(n.args[0], m, c)
+                    if isinstance(v, (int, float)):
+                        return _ast.Constant(value=_math.ceil(v))
+                return n
+        return prog.fold(_ast.fix_missing_locations(T().visit(rec(e))), m, c)
+
+    def num(self, fn, e, mapping):
+        """Numeric value of `e` inside function `fn` for the given values of its inputs (locals inlined, named constants folded)."""
+        from .core import astutil as _A
+        return self.subst_fold(_A.inline_locals(fn.node, e, depth=8), mapping, fn.module, fn.cls)
+
     def rule(self, fn, *args, **kw):
         """Run one rule; an anchor problem in it is recorded (fail-closed at the end) but does not hide the other rules' verdicts."""
         try:
